@@ -62,7 +62,7 @@ Proof. apply msum_empty. Qed.
 (* ------------------------------------------------------------------------------------------ *)
 (* the invariant *)
 Definition wf_prop (p : proposal) : Prop :=
-  p_start p < p_end p /\ 0 <= p_price p /\ 0 <= p_pcoll p /\ 0 <= p_ccoll p.
+  p_start p < p_end p /\ 0 <= p_price p /\ 0 <= p_pcoll p /\ 0 <= p_ccoll p /\ 0 <= p_start p.
 
 Definition wf_ds (now : Z) (p : proposal) (ds : dstate) : Prop :=
   ds_slash ds = UNDEF /\ ds_start ds <> UNDEF /\
@@ -80,7 +80,7 @@ Record InvC (now owed : Z) (P : gmap Z proposal) (S : gmap Z dstate) (Lf Ef : Z 
   i_tc : tc = osum fcc P S;
   i_tp : tp = osum fpc P S;
   i_tf : tf = osum fee_left P S;
-  i_solv : bs + owed = bal;
+  i_solv : bs + owed <= bal;
   i_owed : 0 <= owed;
   i_nid : 0 <= nid
 }.
@@ -96,7 +96,7 @@ Lemma pu_bounds now p os :
   wf_prop p -> (forall ds, os = Some ds -> wf_ds now p ds) ->
   p_start p <= paid_until os p < p_end p.
 Proof.
-  intros (H1 & _) H. unfold paid_until. destruct os as [ds|]; [|lia].
+  intros (H1 & _ & _ & _ & H0) H. unfold paid_until. destruct os as [ds|]; [|lia].
   destruct (H ds eq_refl) as (_ & _ & [Hu|Hu]).
   - rewrite Hu. cbn. lia.
   - destruct (ds_lu ds =? UNDEF); lia.
@@ -119,7 +119,7 @@ Section Conseq.
 
   Lemma inv_contrib_nonneg a id p : P !! id = Some p -> 0 <= contribf a (paid_until (S !! id) p) p.
   Proof.
-    intros Hp. destruct (i_wfP _ _ _ _ _ _ _ _ _ _ _ _ I id p Hp) as [(H1 & H2 & H3 & H4) _].
+    intros Hp. destruct (i_wfP _ _ _ _ _ _ _ _ _ _ _ _ I id p Hp) as [(H1 & H2 & H3 & H4 & H5) _].
     pose proof (inv_pu id p Hp) as Hb.
     assert (0 <= fee_left (paid_until (S !! id) p) p) by (apply fee_left_nonneg; lia).
     unfold contribf. pose proof (ind_nonneg a (p_client p) (p_ccoll p + fee_left (paid_until (S !! id) p) p)).
@@ -218,7 +218,7 @@ Lemma invc_update now owed P S Lf Ef tc tp tf bs bal nid id p ds' Lf' Ef' :
   InvC now owed P (<[id:=ds']> S) Lf' Ef' tc tp (tf - x) bs bal nid.
 Proof.
   intros I Hp Hw pu pu' Hle x HL HE. pose proof I as [].
-  destruct (i_wfP0 id p Hp) as [(W1 & W2 & W3 & W4) _].
+  destruct (i_wfP0 id p Hp) as [(W1 & W2 & W3 & W4 & W5) _].
   assert (Hx : 0 <= x) by (unfold x; apply Z.mul_nonneg_nonneg; lia).
   assert (Hfl : fee_left pu' p = fee_left pu p - x) by (unfold fee_left, x; lia).
   constructor; auto.
@@ -228,8 +228,6 @@ Proof.
   - intros a. rewrite HL, i_locked0, (osum_S_insert _ P S id p ds' Hp). fold pu pu'.
     unfold contribf. rewrite Hfl. ind_cases.
   - intros a. rewrite HL, HE. specialize (i_esc0 a). ind_cases.
-  - rewrite i_tc0, (osum_S_insert _ P S id p ds' Hp). unfold fcc. lia.
-  - rewrite i_tp0, (osum_S_insert _ P S id p ds' Hp). unfold fpc. lia.
   - rewrite i_tf0, (osum_S_insert _ P S id p ds' Hp). fold pu pu'. lia.
 Qed.
 
@@ -250,10 +248,15 @@ Proof.
   - intros k ds Hk. destruct (i_wfS0 k ds Hk) as (q & Hq & Hwd). exists q. split; [|exact Hwd].
     rewrite lookup_insert_ne; [exact Hq|]. intros <-. congruence.
   - intros a. rewrite HL, i_locked0, (osum_insert _ P S nid p Hf), Hs. cbn [paid_until].
-    unfold contribf at 1, client_req, total_fee, fee_left. lia.
-  - rewrite i_tc0, (osum_insert _ P S nid p Hf). unfold fcc at 1. lia.
-  - rewrite i_tp0, (osum_insert _ P S nid p Hf). unfold fpc at 1. lia.
-  - rewrite i_tf0, (osum_insert _ P S nid p Hf), Hs. cbn [paid_until]. unfold fee_left at 1, total_fee. lia.
+    assert (contribf a (p_start p) p =
+            ind a (p_client p) (client_req p) + ind a (p_provider p) (p_pcoll p)) as -> by reflexivity.
+    lia.
+  - rewrite i_tc0, (osum_insert _ P S nid p Hf).
+    assert (fcc (paid_until (S !! nid) p) p = p_ccoll p) as -> by reflexivity. lia.
+  - rewrite i_tp0, (osum_insert _ P S nid p Hf).
+    assert (fpc (paid_until (S !! nid) p) p = p_pcoll p) as -> by reflexivity. lia.
+  - rewrite i_tf0, (osum_insert _ P S nid p Hf), Hs. cbn [paid_until].
+    assert (fee_left (p_start p) p = total_fee p) as -> by reflexivity. lia.
 Qed.
 
 Lemma invc_deposit now owed P S Lf Ef tc tp tf bs bal nid who v Ef' :
